@@ -23,6 +23,8 @@ CHECKS = {
 SCHED = "stateless model checking: exhaustive preemption-bounded schedule enumeration of real threads under a cooperative scheduler"
 COMP = "exhaustive enumeration of inputs / operation sequences on the real component"
 CHECKS.update({
+ "C07": ("E-SEQ", SEQ, "All enabled base histories up to the depth bound; for every position and every write body enabled there (incl. vector insertions, new labels / relationship types, index-relevant property changes) the history with that body in a transaction that is dropped must give the same dump, the same vector-search answers and the same dump after reopen as the history without it.", "abandonment = dropping the storage WriteTxn (what ndb_txn_rollback does); statement-level abandonment is C13", "3/C07"),
+ "C31": ("E-COMP", COMP, "NERVUSDB_HNSW_M=2; all sequences up to the bound over set_vector (3 nodes x 4 vectors x every HNSW level choice 0..2), delete node, reopen; after every step every query of a grid x k in {1,2,5}: at most k distinct live hits with exact distances to the latest vector, sorted, and exactly the k nearest while at most 5 vectors are stored.", "the HNSW level draw is replaced by an enumerated choice through the hooks", "3/C31"),
  "C05": ("E-SEQ", SEQ, "All enabled write histories up to the depth bound; for every insertion position (and every pair of positions) the history with Compact / Checkpoint inserted must end in the same full dump as the history without; plus an overwrite-and-compact family of N rounds on a 2000-byte key.", "differential oracle (same engine with and without the maintenance operation)", "3/C05"),
  "C06": ("E-SEQ", SEQ, "All enabled write-only histories (single operations and two-operation transactions incl. delete+re-create and label toggles) up to the depth bound; after the last commit the dump through every read interface must equal the reference GraphModel.", "GraphModel semantics: relationship identity is (start, type, end) with multiplicity; DETACH delete", "3/C06"),
  "C11": ("E-QUERY", "exhaustive enumeration of a bounded query grammar over all graphs of a bounded scope, compared with an independent reference evaluator", "Every query of the bounded grammar is executed on every graph of the scope and compared with CypherRef (multiset equality, ORDER BY key sequence, SKIP/LIMIT slices).", "reference evaluator cyref.rs is trusted; spec-ambiguous corners excluded (listed in the evidence)", "3/C11"),
